@@ -980,7 +980,11 @@ class Interp:
         # string concatenation / formatting
         sa, sb = self.as_str(a), self.as_str(b)
         if isinstance(op, ast.Add) and sa is not None and sb is not None:
-            return self.mkstr(list(sa.parts) + list(sb.parts))
+            # the left operand keeps its "right-stripped up to here" marker, as it does when interpolated into an f-string
+            r = self.mkstr(list(sa.parts) + ([RStripEnd()] if sa.rstripped else []) + list(sb.parts))
+            if isinstance(r, Str) and sb.rstripped:
+                r = Str(r.parts, True)
+            return r
         if isinstance(op, ast.Add) and isinstance(a, Tup) and isinstance(b, Tup):
             return Tup(a.items + b.items)
         if isinstance(op, ast.Mult) and isinstance(a, Tup) and nb is not None and nb.p.is_const():
@@ -1838,6 +1842,9 @@ class Interp:
             self.bind_args(c.node, args, kwargs, fr, c.name, node)
             if isinstance(c.node, ast.Lambda):
                 return self.eval(c.node.body, fr)
+            if _has_yield(c.node):
+                # a nested generator function: nothing runs until it is iterated
+                return GenFn(_ClosureFunc(c.node), fr)
             try:
                 self.exec_block(c.node.body, fr)
             except _Return as r:
@@ -2354,6 +2361,24 @@ class GenV(V):
 
     def __hash__(self):
         return id(self.node)
+
+
+def _has_yield(fnode) -> bool:
+    stack = list(fnode.body)
+    while stack:
+        n = stack.pop()
+        if isinstance(n, (ast.Yield, ast.YieldFrom)):
+            return True
+        if isinstance(n, (ast.FunctionDef, ast.AsyncFunctionDef, ast.Lambda, ast.ClassDef)):
+            continue
+        stack.extend(ast.iter_child_nodes(n))
+    return False
+
+
+class _ClosureFunc:
+    """Just enough of a FuncInfo for run_generator: the body of a nested generator function."""
+    def __init__(self, node):
+        self.node = node
 
 
 @dataclass(frozen=True)
